@@ -79,7 +79,7 @@ def table():
         sw('tril[k=%d]' % k_, lambda x, k_=k_: a.tril(x, k=k_), lambda v, k_=k_: numpy.tril(v, k=k_), ((3, 3), (2, 3)))
     sw('reshape[-1]', lambda x: x.reshape((-1,)), lambda v: v.reshape((-1,)), ((3, 2),)); sw('reshape[2,-1]', lambda x: a.reshape(x, (2, -1)), lambda v: v.reshape((2, -1)), ((3, 2),))
     sw('triu', lambda x: a.triu(x), numpy.triu, ((3, 3),)); sw('tril', lambda x: a.tril(x), numpy.tril, ((3, 3),))
-    sw('trace', lambda x: a.trace(x), numpy.trace, ((3, 3),))
+    sw('trace', lambda x: a.trace(x), numpy.trace, ((3, 3), (2, 3), (4, 2), (5, 2), (6, 3)))          # tall by two and more rows: a strided diagonal walk wraps around there
     sw('neg', lambda x: -x, lambda v: -v, ((3,), (3, 2)))
     sw('conjugate', lambda x: a.conjugate(x), numpy.conjugate, ((3,),), cplx=True)
     sw('real', lambda x: a.real(x), numpy.real, ((3,),), cplx=True); sw('imag', lambda x: a.imag(x), numpy.imag, ((3,),), cplx=True)
@@ -97,7 +97,9 @@ def table():
     la('outer', lambda x, y: a.outer(x, y), numpy.outer, ((3,), (2,)), nin=2)
     la('inv', lambda x: a.inv(x), numpy.linalg.inv, ((3, 3),)); la('solve', lambda x, y: a.solve(x, y), numpy.linalg.solve, ((3, 3), (3, 2)), nin=2)
     la('det', lambda x: a.det(x), numpy.linalg.det, ((3, 3),)); la('logdet', lambda x: a.logdet(x), lambda v: numpy.log(numpy.linalg.det(v)), ((3, 3),))
-    la('trace', lambda x: a.trace(x), numpy.trace, ((3, 3),))
+    la('trace', lambda x: a.trace(x), numpy.trace, ((3, 3), (5, 2)))
+    # selections decided by the zeroth coefficient of EACH direction (gen_input draws a different base point per direction)
+    la('max', lambda x: a.UTPM.max(x), numpy.max, ((3,), (5,)), only=('C11', 'C14'))          # UTPM.max is a class method, not a dispatching function: outside C10's plain-array clause
     return T
 
 
